@@ -33,13 +33,25 @@ package smtpconn
 //@   prop C09
 //@   requires c != nil
 //@   ensures result == c.rcpts
-// Data / LMTPData transmit the message; the recipient list of the connection is assigned only by Mail and Rcpt
-// (trusted frame: the bodies use the go-smtp client and io only).
+// Data transmits the message; the recipient list of the connection is assigned only by Mail and Rcpt (frame proved).
 //@ func (*C).Data
 //@   prop C09
-//@   trusted
+//@   requires c != nil && c.cl != nil
+//@   modifies *c.cl, gosmtp.SMTPError.Code, gosmtp.SMTPError.EnhancedCode, fsSt, fsData
+//@ func (*C).IsLMTP
+//@   prop C09
 //@   requires c != nil
-//@   modifies *c.cl, gosmtp.SMTPError.Code, gosmtp.SMTPError.EnhancedCode
+// (LMTPData hands a caller-supplied callback to the go-smtp client: its frame is "the client, plus whatever the
+// callback does"; trusted here, and specialised at the one call site that passes a callback with a contract)
+//@ func (*C).LMTPData
+//@   prop C09
+//@   trusted
+//@   requires c != nil && c.cl != nil
+//@   modifies *c.cl, gosmtp.SMTPError.Code, gosmtp.SMTPError.EnhancedCode, fsSt, fsData
+//@ func (*C).smtpToLMTPData
+//@   prop C09
+//@   requires c != nil && c.cl != nil
+//@   modifies *c.cl, gosmtp.SMTPError.Code, gosmtp.SMTPError.EnhancedCode, fsSt, fsData
 // Small accessors / close used by the remote target (C05, C09).
 //@ func (*C).Client
 //@   prop C05 C09
